@@ -30,6 +30,8 @@ func init() {
 	ruleText["R02.9"] = "outside (*Interpreter).ast no assignment gives node.action the action of a Go operator token, and none assigns an operator generator to node.gen directly"
 	ruleText["R02.11"] = "in every generator, SetUint(uint64(i)) with i extracted by genValueInt (or SetInt(int64(u)) with u from genValueUint) is reached only under path conditions whose predicates on the source's type accept no floating-point kind: a float is never narrowed through the other integer class"
 	ruleText["R02.14"] = "nothing in package interp fills a sync.Map or a package-level map after package initialisation (shared as R03.16): converted constants, operator choices or types are not cached process-wide under a key that says less than the value"
+	ruleText["R02.16"] = "a case of a switch over the kind-class predicates that takes the unsigned kinds (none of its kinds is taken by an earlier case) does not read the value through a signed extractor (vInt, genValueInt, reflect.Value.Int, constant.MakeInt64/Int64Val) in its own statements: unsigned values with the top bit set would be read back negative"
+	ruleText["R03.20"] = "R02.16 as it bears on constants (constantOf and the constant helpers are predicate switches): a case that takes the unsigned kinds does not read the value through a signed extractor"
 	ruleText["R02.15"] = "in typecheck.binaryExpr every acceptance (return nil) placed before the conversion of an untyped operand to the other operand's type is guarded by a validity test of the constant value of both operands"
 	ruleText["R02.13"] = "in every switch without tag over the kind-class predicates (isInt, isUint, isFloat, isComplex, isString), anywhere in the package, each case can be taken: the kinds its predicates accept are not all taken by earlier cases"
 	ruleText["R02.12"] = "in cfg only the expression that is itself assigned takes the frame slot of the destination; an operand of that expression (a node whose grandparent is the assignment) never does"
@@ -49,6 +51,7 @@ type c02ctx struct {
 	childIdx   map[*FuncInfo]func(ast.Expr) int
 	silent     bool // r1 only fills the maps
 	folderRule string
+	rule16     string // id under which the signed-read-of-unsigned-kinds rule reports (R02.16; C03 runs it as R03.20)
 	constOpVar types.Object       // the constOp table variable
 	constOpLit *ast.CompositeLit // its literal
 }
